@@ -266,6 +266,24 @@ class Interp:
                     env[n] = np.copy(env[n], order="K")
         elif k == "gc":
             gc.collect()
+        elif k == "rawwrite":
+            # the user writes into a tensor's array behind the library's back (t.data[...] = ...).  NumPy program: no statement at all - the
+            # memory guard must refuse the write (ValueError: read-only) whenever a live graph still reads that memory; when the write is
+            # let through, the library's values move away from the NumPy program's and the checks downstream see it
+            if self.backend == "mg":
+                t = env[st["tgt"]]
+                arr = t.data if isinstance(t, self.mg.Tensor) else t
+                if st.get("via") == "root":
+                    # ... through the buffer that owns the memory (a tensor made without a copy from a slice of the user's array)
+                    while isinstance(arr, np.ndarray) and isinstance(arr.base, np.ndarray):
+                        arr = arr.base
+                if isinstance(arr, np.ndarray) and arr.dtype.kind == "f" and arr.size:
+                    new = arr * 1.5 + 0.25
+                    try:
+                        arr[...] = new
+                        self.rawwrites_ok = getattr(self, "rawwrites_ok", []) + [i]
+                    except ValueError:
+                        pass
         elif k == "alias":
             env[st["out"]] = env[st["src"]]
         elif k == "constof":
@@ -295,8 +313,15 @@ class Interp:
             except Exception as e:  # noqa
                 if not catch:
                     raise
+                # like a user's `except ...: pass`: the exception object is kept for classification, but NOT its traceback (which would keep the
+                # failed call's frames - its operation object, placeholders and locks - alive for the rest of the history)
+                c_ = e
+                while c_ is not None:
+                    c_.__traceback__ = None
+                    c_ = c_.__context__ or c_.__cause__ if (c_.__context__ is not c_) else None
                 exc = e
                 self.raised[i] = e
+                del e, c_
             if inject and i in inject:
                 for name, delta in inject[i]:
                     tgt = self.env[name]
